@@ -134,6 +134,7 @@ Definition run_range (c : value) : value :=
   | VL [VI 0; VI f; VI t; VI s] => range_obs (mk_num f t s)
   | VL [VI 1; VB str; VI s] => range_obs (of_string str s)
   | VL [VI 5; VB str; VI s] => range_obs (of_string str s)
+  | VL [VI 7; VI _; VI _; VI _; VI _] => range_obs (mk_num 1 0 (-1))        (* mode 7: a default-constructed range, whatever was assigned to others *)
   | VL [VI 6; VB str; VI s] => range_obs (of_string str s)        (* mode 6: the string is UTF-8; only ASCII digits are digits *)        (* mode 5: the same while other threads build ranges of their own *)
   | VL [VI 2; VI f; VI t; VI s; VI s'] => range_obs (with_size (mk_num f t s) s')
   | VL [VI 3; VB str; VI s; VI s'] => range_obs (with_size (of_string str s) s')
